@@ -260,13 +260,16 @@ Proof. intro H. induction l as [|x r IH]; [reflexivity|]. simpl. rewrite H, IH. 
 Lemma guards_fixed : forall c, v_guards (check fx_all c) = [].
 Proof.
   intros [m conf rule exp now dmax o | b cachable h dflt now dmax tget o_nsets o_set o_hit | b ops
-         | b [m conf rule | dflt] slack xsets evs obs | ]; simpl; unfold guards; simpl.
+         | b [m conf rule | dflt] slack xsets evs obs | b m slack xsets evs obs | ]; simpl; unfold guards; simpl.
   - unfold guard_F1, guard_F3. simpl. reflexivity.
   - unfold guard_F4. simpl. reflexivity.
   - reflexivity.
   - rewrite existsb_const_false by (intros [[t k] fr]; unfold guard_F1; reflexivity).
     unfold guard_F3. simpl. reflexivity.
   - rewrite existsb_const_false by (intros [[t k] fr]; unfold g_F2; reflexivity). reflexivity.
+  - rewrite existsb_const_false by (intros [[[[t k] conf] rule] fr]; unfold guard_F1; reflexivity).
+    rewrite existsb_const_false by (intros [[[[t k] conf] rule] fr]; unfold guard_F3; reflexivity).
+    unfold guard_F5, key_has_ttl. simpl. destruct m; reflexivity.
   - reflexivity.
 Qed.
 
@@ -280,6 +283,7 @@ Definition wf_case (f : fixes) (c : case) : Prop :=
   | CHttp _ _ h _ now dmax _ _ _ _ => wf_http h now dmax
   | CCache _ _ => True
   | CHist _ hk slack _ evs _ => hist_wf f hk slack evs
+  | CMix _ _ _ _ _ _ => False   (* mixed histories: no soundness theorem for the evaluator (see C10/Mixed.v for the model) *)
   | CBroken => False
   end.
 
@@ -288,11 +292,12 @@ Theorem check_sound : forall f c,
   v_corr (check f c) = true -> v_guards (check f c) = [] -> v_prop (check f c) = true.
 Proof.
   intros f [m conf rule exp now dmax o | b cachable h dflt now dmax tget o_nsets o_set o_hit | b ops
-           | b hk slack xsets evs obs | ] Hwf.
+           | b hk slack xsets evs obs | b m slack xsets evs obs | ] Hwf.
   - destruct Hwf. apply check_sound_exec; assumption.
   - apply check_sound_http. exact Hwf.
   - apply check_sound_cache.
   - apply check_sound_hist. exact Hwf.
+  - destruct Hwf.
   - destruct Hwf.
 Qed.
 
